@@ -26,6 +26,14 @@ def main():
         from tools import extract_tables
         extract_tables.regenerate(ctx)
     fw.coq_obligations(ctx)
+    if ctx.proof_errors:
+        # an obligation broke; if a regenerated table caused it, search for a failing input with the
+        # model built from the committed (proved) tables, so that model = spec in the comparison below
+        gen = os.path.join(fw.COQ, "Generated", "Tables.v")
+        com = os.path.join(fw.COQ, "Generated", "Tables.committed")
+        if os.path.exists(com) and open(gen).read() != open(com).read():
+            ctx.notes.append("regenerated tables differ from the committed ones: " + extract_tables.diff_tables(gen, com))
+            open(gen, "w").write(open(com).read())
     ok, out = fw.build_model(ctx.log)
     if not ok:
         ctx.proof_errors.append("model extraction/build failed: " + out[-500:])
